@@ -147,6 +147,8 @@ class Check(PropertyCheck):
     id = 'C19'
     props_module = 'Props.C19'
     models = {'visitor': 'XVisitor.v'}
+    needs_gen = True
+    gen_modules = ['gen_c19']
     rule = ('every ordered tree of <= N nodes x every assignment of {none,SkipChildren,SkipSiblings,SkipNode,'
             'SkipDeparture} to its nodes x every sequence of <= 3 extension timings x {walkabout, walk}; '
             'non-trivial = at least one pruning action and one extension; distinct by construction')
